@@ -248,6 +248,7 @@ func (r *replica) step(crashAt int) bool {
 	if !r.alive || r.removed {
 		return false
 	}
+	r.sim.mon.onStepBegin(r)
 	// ---- node.handleEvents ----
 	hasEvent := false
 	r.appliedIndex = r.rsm.GetLastApplied()
